@@ -207,11 +207,18 @@ pub fn notes_transcript_c<E: EndianParse>(mut it: NoteIterator<'_, E>) -> String
 }
 
 pub fn show_strtab_c(t: &StringTable<'_>, whole: Option<&[u8]>) -> String {
+    // the table's extent is observable only through lookups: the offsets at and just past the declared end of the section
+    // must be refused exactly as a table of that size refuses them (a table that came back longer answers differently)
+    let probes = match whole {
+        Some(w) => format!("{}/{}", show_res(&t.get_raw(w.len()), |s| content(s)), show_res(&t.get_raw(w.len() + 1), |s| content(s))),
+        None => "-/-".into(),
+    };
     format!(
-        "strtab({},{}/{})",
+        "strtab({},{}/{}/{})",
         whole.map(content).unwrap_or_else(|| "?".into()),
         show_res(&t.get_raw(0), |s| content(s)),
-        show_res(&t.get_raw(1), |s| content(s))
+        show_res(&t.get_raw(1), |s| content(s)),
+        probes
     )
 }
 
